@@ -48,6 +48,9 @@ func HandlePrograms(fs string) []Prog {
 	paths := []fsx.Call{
 		{Op: "Truncate", A: "/d/x", N: 0}, {Op: "Chmod", A: "/d/x", Perm: 0o600}, {Op: "Remove", A: "/d/x"},
 		{Op: "Rename", A: "/d/x", B: "/d/y"}, {Op: "Stat", A: "/d/x"}, {Op: "Link", A: "/d/x", B: "/d/y"}, {Op: "Chtimes", A: "/d/x", N: 3},
+		// the open file loses its name to another file: what Rename does to the replaced node is
+		// ordered with the calls on the handle by the lock of the node only, not by that of the directory
+		{Op: "Rename", A: "/f/g", B: "/d/x"},
 	}
 
 	for _, pc := range paths {
